@@ -467,7 +467,7 @@ def _plan(tier):
 
 def run(rep: Report):
     tier = rep.tier
-    opts = {"prove_timeout_ms": 10000, "fork_timeout_ms": 2000, "seed": rep.seed, "scenario_wall_s": 240 if tier == "quick" else 900}
+    opts = {"prove_timeout_ms": 10000, "fork_timeout_ms": 2000, "seed": rep.seed, "scenario_wall_s": 900 if tier == "quick" else 900}
     run_plan(rep, _plan(tier), SCENARIOS, opts)
     rep.bounds = {"classes": sorted(n for n in discover() if n not in ABSTRACT_BASES), "nesting": "composites of depth <= 2", "entry modules": public_modules(), "drivers": list(DRIVER_SETTINGS)}
     rep.assumptions = ["numeric parameters symbolic, carried through the real JSON codec as sentinel doubles; booleans/masks/integers set to non-default concrete values", "documented tunables considered: " + ", ".join(TUNABLES), "abstract bases (no behaviour of their own) are not instantiated: " + ", ".join(sorted(ABSTRACT_BASES))]
